@@ -30,7 +30,7 @@ type EngineCall struct {
 // At < 0 means: every call answers Verdict.
 type ScriptedEngine struct {
 	Spec    *common.Spec
-	Verdict string // valid | invalid | error
+	Verdict string // valid | invalid | error | errortrue (= (true, err))
 	At      int
 	Calls   []EngineCall
 }
@@ -49,6 +49,9 @@ func (e *ScriptedEngine) answer(c EngineCall) (bool, error) {
 		return true, nil
 	case "invalid":
 		return false, nil
+	case "errortrue":
+		// an adaptor that reports a failure in the error slot NEXT TO an approving verdict: still an engine error
+		return true, ErrEngine
 	default:
 		return false, ErrEngine
 	}
